@@ -23,7 +23,11 @@ ASSUMPTIONS = [
     "header structs are observed as kind + serialized length in the model/implementation correspondence; their field "
     "values are compared as Rust values (==) between the two families on the implementation side only (field decoders: C08/C15)",
     "LaxPacketHeaders is modelled (Parse/HdrLaxModel.v) and compared exactly with the implementation on every case; the whole-packet "
-    "relation LaxPacketHeaders vs LaxSlicedPacket is compared on the implementation side (per-layer agreement is proved in Coq)",
+    "relation LaxPacketHeaders vs LaxSlicedPacket is proved in Coq about the two models (C04_lax_headers_eq_slices, relation lhagree of "
+    "Parse/HdrLaxCut.v: same verdict, header windows, payload up to the carried-forward MACsec length source, stop error record up to "
+    "len_source Slice, F11 pair on the IP header) through the conversion lconv, a Coq definition mirroring harness/src/hdrlax.rs::"
+    "of_lax_sliced + innermost that is not itself extracted; on the implementation side the two lax families are compared by the oracle "
+    "(same headers, payload kind and byte range, Err vs Ok, stop layer)",
 ]
 EXT_KINDS = ("60", "43", "44", "51")
 
